@@ -60,7 +60,8 @@ class _Job:
     __slots__ = ("proc", "conn", "setup_arg", "units", "pos", "started", "done_idx")
 
 
-def run_tasks(tasks, work, setup=None, unit_timeout=10.0, mem_gb=4, nproc=None, on_result=None, progress=None):
+def run_tasks(tasks, work, setup=None, unit_timeout=10.0, mem_gb=4, nproc=None, on_result=None, progress=None,
+              stop=None):
     """tasks: iterable of (setup_arg, list_of_units).  Calls on_result(setup_arg, unit, status, value) in the parent
     for every unit (status in ok/timeout/memory/exc/hang).  Returns number of units processed."""
     nproc = nproc or NPROC
@@ -99,6 +100,13 @@ def run_tasks(tasks, work, setup=None, unit_timeout=10.0, mem_gb=4, nproc=None, 
         active.remove(j)
 
     while pending or active:
+        if stop is not None and stop():
+            # the caller has seen enough (e.g. dozens of units over budget): the verdict cannot change any more
+            for j in list(active):
+                j.proc.kill()
+                finish(j)
+            del pending[:]
+            break
         while pending and len(active) < nproc:
             spawn(*pending.pop())
         ready = mp.connection.wait([j.conn for j in active], timeout=0.5)
